@@ -264,6 +264,37 @@ class Gen12(fortgen.Gen):
             return [use]
         return [use, w] if r.random() < 0.75 else [w, use]
 
+    def compound(self):
+        """statements whose sub-expressions are evaluated BEFORE their bodies: DO WHILE (condition reads what the body
+        overwrites), IF / ELSE IF chains, DO loops whose bounds read arrays"""
+        r = self.r
+        one = [x for x in sorted(self.arrays) if len(self.arrays[x]) == 1]
+        v = r.choice(one)
+        lb, ub = self.arrays[v][0]
+        e0 = ("idx", v, [("lit", lb)])
+        e1 = ("idx", v, [("lit", lb + 1)])
+        w = r.choice([x for x in one if x != v] or one)
+        cnt = r.choice(["s", "t", "m"])
+        k = r.randint(0, 3)
+        if k <= 1:      # do while (v(lb) > 1 .and. cnt < 3): v(lb) = ... ; cnt = cnt + 1
+            first = ("assign", v, [("lit", lb)], r.choice([("lit", 0), ("lit", 1), ("var", cnt), ("lit", 0),
+                                                           ("bin", "Sub", e1, ("lit", 1)), ("bin", "Sub", e0, ("lit", 1))]))
+            body = [first, ("assign", w, [("lit", self.arrays[w][0][0])], ("bin", "Add", e0, ("lit", 1))),
+                    ("assign", cnt, [], ("bin", "Add", ("var", cnt), ("lit", 1)))]
+            if r.random() < 0.15:
+                body = body[1:] + body[:1]
+            return [("while", ("bin", "And", ("bin", "Gt", e0, ("lit", 1)), ("bin", "Lt", ("var", cnt), ("lit", 3))), body)]
+        if k == 2:      # if / else if / else chain whose conditions read what the branches overwrite
+            return [("if", ("bin", "Gt", e0, ("lit", 2)), [("assign", v, [("lit", lb)], ("lit", 0))],
+                     [("if", ("bin", "Lt", e1, ("lit", 0)), [("assign", v, [("lit", lb + 1)], ("lit", 1))],
+                       [("assign", cnt, [], e0)])])]
+        free = [x for x in fortgen.LOOPVARS]
+        i, j = free[0], free[1]      # nested loops whose bounds read array elements the bodies overwrite
+        return [("do", i, ("lit", 1), ("intr", "IMin", [e0, ("lit", 3)]), ("lit", 1),
+                 [("do", j, ("lit", 1), ("intr", "IMin", [e1, ("lit", 2)]), ("lit", 1),
+                   [("assign", v, [("lit", lb + 1)], ("bin", "Add", ("var", i), ("var", j)))]),
+                  ("assign", v, [("lit", lb)], ("lit", 2))])]
+
     def call_with_partial_write(self):
         """a partial write of an array before / after a call that receives the same array"""
         r = self.r
@@ -315,6 +346,7 @@ subroutine inc_elem(y)
   y = y + 1
 end subroutine inc_elem
 """
+WHILE_DEPTH = 8
 KNOWN_CALLEES = ("inc_all", "rd_two", "set_one", "inc_elem", "foo")
 
 
@@ -392,6 +424,8 @@ def xstmts_from_psyir(nodes, arrays=()):
             if any(n.argument_names) or n.routine.name.lower() not in KNOWN_CALLEES:
                 raise mf.OutOfSubset("call " + n.routine.name)
             out.append(("call", n.routine.name.lower(), [mf.expr_from_psyir(a) for a in n.arguments]))
+        elif type(n).__name__ == "WhileLoop":
+            out.append(("while", mf.expr_from_psyir(n.condition), mf.stmts_from_psyir(n.loop_body.children)))
         elif _is_wop(n):
             out.append(wop_from_psyir(n))
         else:
@@ -457,6 +491,8 @@ def xstmts_to_coq(xs, nm):
             items.append("(XCall [%s])" % "; ".join(mf.expr_to_coq(a, nm) for a in s[2]))
         elif s[0] == "wop":
             items.append("(XWop %d%%nat %s %s)" % (nm.get(s[1]), "true" if s[2] else "false", wexpr_to_coq(s[3], nm)))
+        elif s[0] == "while":
+            items.append("(XWhile %s %s)" % (mf.expr_to_coq(s[1], nm), mf.stmts_to_coq(s[2], nm)))
         else:
             items.append("(XCore %s)" % mf.stmt_to_coq(s, nm))
     return "[" + "; ".join(items) + "]"
@@ -470,6 +506,8 @@ def xstmts_to_fortran(xs, rank=None):
         elif s[0] == "wop":
             lhs = s[1] + ("(%s)" % ", ".join(":" * (rank or {}).get(s[1], 1)) if s[2] else "")
             lines.append("  %s = %s" % (lhs, wexpr_to_fortran(s[3])))
+        elif s[0] == "while":
+            lines += ["  do while (%s)" % mf.expr_to_fortran(s[1])] + mf.stmts_to_fortran(s[2], "    ") + ["  end do"]
         else:
             lines += mf.stmts_to_fortran([s])
     return lines
@@ -499,7 +537,7 @@ def find_sub(psy):
 
 def has_call(xs):
     """statements whose semantics is supplied by expansion (calls, whole-array statements)"""
-    return any(s[0] in ("call", "wop") for s in xs)
+    return any(s[0] in ("call", "wop", "while") for s in xs)
 
 
 def _inc(ref):
@@ -510,6 +548,13 @@ def expand_calls(xs, bnds):
     """the statements a region amounts to for array extents `bnds` (calls replaced by what the callee does)"""
     out = []
     for s in xs:
+        if s[0] == "while":
+            # DO WHILE by bounded unrolling (generated loops are bounded by a counter: at most WHILE_DEPTH iterations)
+            u = []
+            for _ in range(WHILE_DEPTH):
+                u = [("if", s[1], list(s[2]) + u, [])]
+            out += u
+            continue
         if s[0] == "wop":
             # conservative whole-array semantics: read every element of every array (and every scalar) whose value
             # the right-hand side uses, then write every element of the left-hand side
@@ -1140,6 +1185,9 @@ def run(ctx):
         elif c < 0.55:
             k = rng.randint(0, len(prog))
             prog[k:k] = g.wop_then_overwrite()
+        if rng.random() < 0.55:
+            k = rng.randint(0, len(prog))
+            prog[k:k] = g.compound()
         stores = []
         for k in range(nstores):             # array extents are part of the incoming state: vary them
             vals, b = g.store()
